@@ -15,9 +15,9 @@ define i32 @f(i32 %x, i32, i32 %z) {
   %5 = phi i32 [ %tmp, %1 ], [ %6, %4 ]
   %6 = add i32 %5, 1
   %7 = icmp slt i32 %6, 10
-  br i1 %7, label %4, label %exit
+  br i1 %7, label %4, label %"ex\20it"
 
-exit:
+"ex\20it":
   ret i32 %6
 }
 
